@@ -994,6 +994,14 @@ class OdeSystem(object):
             self.integrator.final_time = None
 
         events, is_terminal, direction, last_occurrence, requires_dstate = prepare_events(events, self.__y[0])
+        if events is not None:
+            # a crossing on the junction of two calls is found by both: the duplicate guard carries on from the records
+            # that earlier calls made for the same event function
+            for __ev_idx, __ev in enumerate(events):
+                for __rec_idx in range(len(self.__events) - 1, -1, -1):
+                    if self.__events[__rec_idx].event is __ev:
+                        last_occurrence[__ev_idx] = __rec_idx
+                        break
 
         implicit_integration = False
         if np.isinf(D.ar_numpy.to_numpy(tf)):
